@@ -171,6 +171,17 @@ func (t *tr) called(callee string) {
 	}
 	m[callee] = true
 }
+// isVerifPoint recognises a call of the library's verifPoint hook (a no-op unless a verification harness installed a
+// callback; never library behaviour).
+func isVerifPoint(e ast.Expr) bool {
+	c, ok := ast.Unparen(e).(*ast.CallExpr)
+	if !ok {
+		return false
+	}
+	id, ok := ast.Unparen(c.Fun).(*ast.Ident)
+	return ok && id.Name == "verifPoint"
+}
+
 func (t *tr) unsupported(n ast.Node, what string) {
 	f, l := t.pos(n)
 	t.out.unsupported = append(t.out.unsupported, fmt.Sprintf("%s: %s at %s:%d", t.fn, what, filepath.Base(f), l))
@@ -580,6 +591,10 @@ func (t *tr) stmtL(s ast.Stmt, label string) string {
 	case nil:
 		return "PSkip"
 	case *ast.ExprStmt:
+		if isVerifPoint(v.X) {
+			// inert instrumentation (verif_off.go: empty function; verif_on.go: the harness's own callback)
+			return "PSkip"
+		}
 		t.expr(v.X, &a)
 	case *ast.AssignStmt:
 		for _, r := range v.Rhs {
@@ -604,6 +619,9 @@ func (t *tr) stmtL(s ast.Stmt, label string) string {
 		t.expr(v.Chan, &a)
 		t.expr(v.Value, &a)
 	case *ast.DeferStmt:
+		if isVerifPoint(v.Call) {
+			return "PSkip"
+		}
 		if act, ok := t.lockAct(v.Call); ok {
 			return "(PDefer (" + act + "))"
 		}
